@@ -34,7 +34,15 @@ func enumRoots() []RootD {
 		anyMapRoot(),
 		eRootRoot("data"),
 		eRootRoot("pdata"),
+		pageRoot("data", "first"),
+		pageRoot("pdata", "mid"),
 	}
+}
+
+// pageRoot: an embedding struct whose own fields compete with promoted ones, as root data.
+func pageRoot(kind, order string) RootD {
+	d := vPage(order, "r")
+	return RootD{Kind: kind, Data: &d, Map: map[string]VD{"x": vStr("rx")}}
 }
 
 // eRootRoot: a struct embedding another struct as root data, by value or by pointer.
@@ -116,20 +124,24 @@ func zooNode(name string, rich bool) VD {
 // zoo: fixed values that together contain every container kind in every nesting position.
 func zoo() []VD {
 	a := vMap("map", map[string]VD{
-		"a":  vList("slice", vInt(1), vMap("map", map[string]VD{"k": vStr("v"), "0": vStr("zero")}), vList("ints", vInt(5), vInt(6)), vNil()),
-		"n":  zooNode("nm", true),
-		"p":  vList("ptr", zooNode("pn", false)),
-		"np": {K: "nilptr", S: "node"},
-		"ss": vMap("mapss", map[string]VD{"k": vStr("v"), "0": vStr("z")}),
-		"mi": vMap("mapis", map[string]VD{"1": vStr("one"), "2": vStr("two")}),
-		"ar": vList("arr3", vInt(7), vInt(8), vInt(9)),
-		"s":  vStr("scalar"),
-		"pp": vList("ptr", vList("ptr", zooNode("ppn", false))),
-		"ps": vList("ptr", vList("slice", vInt(1), vStr("b"))),
-		"pm": vList("ptr", vMap("map", map[string]VD{"k": vInt(1)})),
-		"nl": vNil(),
-		"er": vERoot("z"),
-		"pe": vList("ptr", vERoot("pz")),
+		"a":   vList("slice", vInt(1), vMap("map", map[string]VD{"k": vStr("v"), "0": vStr("zero")}), vList("ints", vInt(5), vInt(6)), vNil()),
+		"n":   zooNode("nm", true),
+		"p":   vList("ptr", zooNode("pn", false)),
+		"np":  {K: "nilptr", S: "node"},
+		"ss":  vMap("mapss", map[string]VD{"k": vStr("v"), "0": vStr("z")}),
+		"mi":  vMap("mapis", map[string]VD{"1": vStr("one"), "2": vStr("two")}),
+		"ar":  vList("arr3", vInt(7), vInt(8), vInt(9)),
+		"s":   vStr("scalar"),
+		"pp":  vList("ptr", vList("ptr", zooNode("ppn", false))),
+		"ps":  vList("ptr", vList("slice", vInt(1), vStr("b"))),
+		"pm":  vList("ptr", vMap("map", map[string]VD{"k": vInt(1)})),
+		"nl":  vNil(),
+		"er":  vERoot("z"),
+		"pgf": vPage("first", "f"),
+		"pgl": vList("ptr", vPage("last", "l")),
+		"pgm": vPage("mid", "m"),
+		"pgb": vPage("base", "b"),
+		"pe":  vList("ptr", vERoot("pz")),
 	})
 	b := vList("slice",
 		zooNode("s0", false),
@@ -430,7 +442,7 @@ func (g genCtx) val(t *rapid.T, depth int) VD {
 		}
 		return l
 	}
-	switch rapid.IntRange(0, 34).Draw(t, "kind") {
+	switch rapid.IntRange(0, 36).Draw(t, "kind") {
 	case 0, 1:
 		return g.val(t, 0)
 	case 2, 3, 4:
@@ -478,6 +490,12 @@ func (g genCtx) val(t *rapid.T, depth int) VD {
 			}
 		}
 		return VD{K: kind, M: m}
+	case 35, 36:
+		pg := vPage(rapid.SampledFrom([]string{"first", "last", "mid", "base"}).Draw(t, "porder"), rapid.SampledFrom([]string{"a", "b"}).Draw(t, "ptag"))
+		if rapid.Bool().Draw(t, "pptr") {
+			return vList("ptr", pg)
+		}
+		return pg
 	case 33, 34:
 		e := vERoot(rapid.SampledFrom([]string{"a", "b"}).Draw(t, "etag"))
 		if depth > 1 {
@@ -657,7 +675,11 @@ func genSeq(t *rapid.T, rec *ev.Rec, known *kf.File) SeqCase {
 		return m
 	}
 	var root RootD
-	switch rapid.IntRange(0, 10).Draw(t, "root") {
+	switch rapid.IntRange(0, 12).Draw(t, "root") {
+	case 11:
+		root = pageRoot("data", rapid.SampledFrom([]string{"first", "last", "mid", "base"}).Draw(t, "porder"))
+	case 12:
+		root = pageRoot("pdata", rapid.SampledFrom([]string{"first", "last", "mid", "base"}).Draw(t, "porder"))
 	case 9:
 		root = eRootRoot("data")
 	case 10:
@@ -704,6 +726,9 @@ func genSeq(t *rapid.T, rec *ev.Rec, known *kf.File) SeqCase {
 	if known.Open(kfTagOverName) && (root.Kind == "struct" || root.Kind == "ptr") {
 		c.EnvSkip = append(c.EnvSkip, "Kind")
 		rec.Excluded(kfTagOverName)
+	}
+	if root.Data != nil && root.Data.K == "page" {
+		c.Names = append(append([]string(nil), pageUniverse...), "y", "Plain", "ID")
 	}
 	if root.Data != nil && root.Data.K == "eroot" {
 		c.Names = append(eNames(known.Open(kfPromotedTag)), "y", "Plain", "ID")
